@@ -562,11 +562,21 @@ def check_release_predicate(model, R, P, B):
                '%s.requires_grad' % v: ('R', True), '%s._requires_grad' % v: ('R', True),
                '%s.grad_fn is not None' % v: ('F', False), '%s.grad_fn is None' % v: ('F', True), '%s._grad_fn is None' % v: ('F', True), '%s._grad_fn is not None' % v: ('F', False)}
     try:
+        from .peval import PE
         lf = model.func(TENSOR + '.is_leaf')
-        lret = [n for n in body_walk(lf.node) if isinstance(n, ast.Return)]
-        lmap = {'self.requires_grad': ('R', True), 'self._requires_grad': ('R', True), 'self.grad_fn is None': ('F', True), 'self._grad_fn is None': ('F', True),
-                'self.grad_fn is not None': ('F', False), 'self._grad_fn is not None': ('F', False)}
-        leaf_ok = len(lret) == 1 and all(eval_bool(lret[0].value, atom_valuation(lmap, dict(R=Rv, F=Fv), fnode=lf.node)) == ((not Rv) or Fv) for Rv in (False, True) for Fv in (False, True))
+        leaf_ok = True
+        for Rv in (False, True):
+            for Fv in (False, True):
+                def dp(t, Rv=Rv, Fv=Fv):
+                    ck, cp = canon_atom(t)
+                    if ck in ('self.requires_grad', 'self._requires_grad'):
+                        return Rv if cp else not Rv
+                    if ck in ('self.grad_fn is None', 'self._grad_fn is None'):
+                        return Fv if cp else not Fv
+                    return None
+                outs = PE(model, default_pred=dp, atoms_not_none=False).paths(lf, {}, max_paths=16)
+                if len(outs) != 1 or outs[0].kind != 'return' or outs[0].value is not ((not Rv) or Fv):
+                    leaf_ok = False
     except (Incomplete, AnalysisError):
         leaf_ok = False
     R.ob(P + '.RELEASE', TENSOR + '.is_leaf', 'is_leaf = not requires_grad or grad_fn is None', leaf_ok, 'the release predicate and the buffer discipline are stated in terms of this definition of a leaf', f.loc)
